@@ -1,4 +1,4 @@
-import JadeModel.Proofs.SystemLiveStep4S
+import JadeModel.Proofs.SystemLive1Defs
 
 set_option linter.unusedSimpArgs false
 
@@ -6,14 +6,16 @@ namespace Jade.Sys
 
 set_option maxHeartbeats 32000000 in
 theorem live4_step_b {s s' : Sys} {op : Op} (hc : CapInv s) (hp : ProgA s) (h0 : Live0 s) (h2 : Live2 s)
-    (h3 : Live3 s) (hi : Live4 s) (h : stepP s op = some s') :
+    (h3 : Live3 s) (hi : Live4 s) (h : stepP s op = some s')
+    (hsb : ∀ p jobs hid, op = Op.sbatch p jobs hid → Live4 s') :
     (∀ q a y, s'.procs q = .sub a y → holds y.pc = true → ∀ j ∈ y.pend,
     ∃ B ∈ s'.batches, j ∈ B.jobs ∧ ∃ h : Hid, B.hid = some h ∧ h ∈ y.out) ∧
     (∀ q a y, s'.procs q = .sub a y → (y.pc = .ready ∨ y.pc = .marked ∨ y.pc = .persisted) →
     ∀ B ∈ s'.batches, ∀ h : Hid, B.hid = some h → h ∈ y.out ∨ s'.nodeFile B.bid = []) := by
   cases op with
-  | sbatch p jobs hid => exact ⟨(live4_sbatch hc h0 hi h).pendBatch, (live4_sbatch hc h0 hi h).quiet⟩
+  | sbatch p jobs hid => exact ⟨(hsb p jobs hid rfl).pendBatch, (hsb p jobs hid rfl).quiet⟩
   | _ =>
+    clear hsb
     have htr := fun q a y hq hh => @holder_tracked' s hc h0 q a y hq hh
     have hbu := fun b hb b' hb' => @bid_unique s.batches hc.node.batch.idsNodup b b' hb hb'
     have hend := fun k => @ended_of_not_active s k
